@@ -133,6 +133,21 @@ def check_seq(ws, case):
                     return viol("line-step-no-progress", "line step executed no instruction")
                 if rc == RES["ok"] and after["contexts"] and l0 is not None and l1 == l0 and depth(after) >= depth(before) and st["instr"] < 40:
                     return viol("line-step-stopped-on-same-line", "line step from line %s stopped with the next instruction still on line %s after %d instructions" % (l0, l1, st["instr"]))
+                if len(before["contexts"]) == 1 and before["state"] != "halted_error" and l0 is not None:
+                    # differential oracle: a line step = assembly steps until the instruction to be executed next is on another line
+                    # than the one the step started on (or the script is over)
+                    ref = steps[:first + i] + [{"op": "exec", "id": 0, "action": "assembly_step", "detail": True} for _ in range(40)]
+                    r2 = ws.call({"mode": "steps", "fork": True, "timeout_ms": 15000, "clock": {"tick_us": 1}, "steps": ref}, variant="fast")
+                    if r2["outcome"] == "ok":
+                        acc, n_ref = 0, None
+                        for s2 in r2["result"]["steps"][first + i:]:
+                            acc += s2["instr"]
+                            v2 = s2["vm"]
+                            if s2["r"] != RES["ok"] or not v2["contexts"] or top_line(v2) != l0 or depth(v2) < depth(before):
+                                n_ref = acc
+                                break
+                        if n_ref is not None and rc in (RES["ok"], RES["empty"]) and st["instr"] != n_ref and depth(after) >= depth(before):
+                            return viol("line-step-length", "line step from line %s executed %d instructions; stepping reaches another line after %d" % (l0, st["instr"], n_ref))
         elif a == "leave_scope":
             if has_script and rc == RES["ok"] and after["contexts"] and depth(after) >= depth(before) and depth(before) > 1:
                 return viol("leave-scope-depth", "leave scope returned with frame depth %d (before %d)" % (depth(after), depth(before)))
